@@ -100,6 +100,36 @@ class ExtEntryHook(Hooks):
         self.add_to_stats(process=step.status.slot, time=L.time, level=L.level_index, iter=step.status.iter, sweep=L.status.sweep, type='c19x_end', value=2, flag='done')
 
 
+class InexactLin(sp.LinProb):
+    """linear problem whose solver is inexact in a way that depends on the tolerance it was given: solve = exact solve + newton_tol in every component
+    (stands for any solver whose answer depends on problem.newton_tol, which the shipped NewtonInexactness controller adjusts during a run)"""
+
+    def __init__(self, A):
+        super().__init__(A)
+        self.newton_tol = 0.125
+
+    def solve_system(self, rhs, factor, u0, t):
+        me = super().solve_system(rhs, factor, u0, t)
+        me[:] = [x + self.newton_tol for x in me]
+        return me
+
+
+def _finexact():
+    from harness import sweepspec as ss
+
+    class FInexactLin(ss.FLin):
+        def __init__(self, A):
+            super().__init__(A)
+            self.newton_tol = 0.125
+
+        def solve_system(self, rhs, factor, u0, t):
+            me = super().solve_system(rhs, factor, u0, t)
+            me[:] = np.asarray(me) + self.newton_tol
+            return me
+
+    return FInexactLin
+
+
 def build(cfg, float_mode=False):
     """cfg: dict(sweeper, prob, n, M (list per level), NP, qd, restol, maxiter, predict, jac, residual_type, dt, nsweeps, initial_guess)"""
     from harness import c02
@@ -127,6 +157,13 @@ def build(cfg, float_mode=False):
              level_params={'dt': cfg['dt'], 'restol': cfg['restol'], 'residual_type': cfg.get('residual_type', 'full_abs'),
                            'nsweeps': ([cfg.get('nsweeps', 1)] * (NL - 1) + [1]) if NL > 1 else cfg.get('nsweeps', 1)},
              step_params={'maxiter': cfg['maxiter']})
+    if cfg.get('inexact'):
+        # the shipped NewtonInexactness controller sets problem.newton_tol from the residual after every iteration (iteration 0 included)
+        from pySDC.implementations.convergence_controller_classes.inexactness import NewtonInexactness
+
+        assert kind == 'generic_implicit'
+        d['problem_class'] = _finexact() if float_mode else InexactLin
+        d['convergence_controllers'] = {NewtonInexactness: {'ratio': 0.5, 'max_tol': 0.25}}
     if cfg.get('e_tol') is not None:
         d['level_params']['e_tol'] = cfg['e_tol']  # stopping by increment: loads EstimateEmbeddedError, which registers extra level status variables
     if NL > 1:
@@ -166,6 +203,8 @@ def run_symbolic(c, cfg, xs=None, t0=0.0, nsteps=None, ctl=None):
     for x in xs:
         if z3.is_const(x) and x.decl().kind() == z3.Z3_OP_UNINTERPRETED:
             c.add(z3.And(x >= -1, x <= 1))
+            if cfg.get('xrange'):
+                c.add(z3.And(x >= rv(cfg['xrange'][0]), x <= rv(cfg['xrange'][1])))
     u0 = sp.mkmesh(P, [SymReal(x) for x in xs])
     nsteps = nsteps if nsteps is not None else cfg['NP'] * cfg.get('blocks', 1)
     uend, stats = ctl.run(u0, t0, t0 + cfg['dt'] * nsteps)
